@@ -45,6 +45,7 @@ type hcase struct {
 	Ops     []op   `json:"ops"`
 	NKeys   int    `json:"nkeys"`
 	Rounds  int    `json:"rounds,omitempty"`
+	Reload  bool   `json:"reload"` // close and reopen both volumes at the end and compare again
 	Concurr *ccase `json:"concurrent,omitempty"`
 }
 
@@ -54,7 +55,11 @@ type ccase struct {
 	Prefill     int   `json:"prefill"`      // blobs written before the compaction starts
 	PrefillLen  int   `json:"prefill_len"`  // their payload length
 	BytesPerSec int64 `json:"bytes_per_s"`  // compactionBytePerSecond
-	OpsPerW     int   `json:"ops_per_writer_max"`
+	OpsPerW     int   `json:"ops_per_writer_during_compact"` // budget while Compact runs (unused part is dropped)
+	OpsBetween  int   `json:"ops_per_writer_between"`
+	OpsCommit   int   `json:"ops_per_writer_during_commit"`
+	OpsAfter    int   `json:"ops_per_writer_after_commit"`
+	PaceUs      int   `json:"pace_us"` // sleep between a writer's ops while the compaction runs
 	Seed        int64 `json:"seed"`
 }
 
@@ -372,13 +377,16 @@ func runHistory(t *twin, c hcase) bool {
 		if !t.compareAll(c.NKeys, st, "end-of-history", c) {
 			ok = false
 		}
-		t.reopen()
-		if t.store.GetVolume(t.a) == nil || t.store.GetVolume(t.b) == nil {
-			r.Violation(lib.Sig{"op": "reload", "class": "volume-missing"}, c)
-			return false
-		}
-		if !t.compareAll(c.NKeys, st, "after-reload", c) {
-			ok = false
+		if c.Reload {
+			t.reopen()
+			if t.store.GetVolume(t.a) == nil || t.store.GetVolume(t.b) == nil {
+				r.Violation(lib.Sig{"op": "reload", "class": "volume-missing"}, c)
+				return false
+			}
+			if !t.compareAll(c.NKeys, st, "after-reload", c) {
+				ok = false
+			}
+			r.Count("reload_comparisons", 1)
 		}
 	}
 	return ok
@@ -422,55 +430,66 @@ func runConcurrent(c hcase) bool {
 	}
 	idxBefore := t.volA().IndexFileSize()
 
-	var state int32 // 0 not started, 1 compact running, 2 compact returned, 3 commit running, 4 commit returned
+	var state int32 // 0 warm-up, 1 compact running, 2 compact returned, 3 commit running, 4 commit returned
 	cpd := fmt.Sprintf("%s/%d.cpd", t.dir, t.a)
 	var wl wlog
+	var phaseDone [5]int64
 	var wg sync.WaitGroup
 	stop := make(chan struct{})
+	budget := [5]int{3, cc.OpsPerW, cc.OpsBetween, cc.OpsCommit, cc.OpsAfter}
+	phases := []string{"before-compact", "during-compact", "between-compact-and-commit", "during-commit", "after-commit"}
 	for w := 0; w < cc.Writers; w++ {
 		st[w] = map[int]*kstate{}
 		wg.Add(1)
 		go func(w int) {
 			defer wg.Done()
 			rng := rand.New(rand.NewSource(cc.Seed*131 + int64(w)))
-			for i := 0; i < cc.OpsPerW; i++ {
+			var done [5]int
+			i := 0
+			for {
 				select {
 				case <-stop:
 					return
 				default:
 				}
+				s0 := atomic.LoadInt32(&state)
+				if done[s0] >= budget[s0] {
+					if s0 == 4 {
+						return
+					}
+					time.Sleep(500 * time.Microsecond)
+					continue
+				}
+				i++
 				k := cc.Prefill + w*cc.KeysPerW + rng.Intn(cc.KeysPerW)
 				// also touch prefilled keys owned by this writer (k mod writers == w) so that blobs
-				// copied by the compaction get overwritten / deleted meanwhile
-				if rng.Intn(3) == 0 && cc.Prefill > 0 {
+				// the compaction copies get overwritten / deleted meanwhile
+				if rng.Intn(3) == 0 && cc.Prefill > cc.Writers {
 					k = (rng.Intn(cc.Prefill)/cc.Writers)*cc.Writers + w
 					if k >= cc.Prefill {
-						k = w % cc.Prefill
+						k = w
 					}
 				}
 				o := op{Kind: "W", K: k, Len: 1 + rng.Intn(2000), Seq: 1000000*(w+1) + i}
 				if rng.Intn(4) == 0 {
 					o = op{Kind: "D", K: k}
 				}
-				s0 := atomic.LoadInt32(&state)
 				cpdThere := s0 == 1 && util.FileExists(cpd)
 				m := st[w]
-				if k < cc.Prefill {
-					m = st[w] // per-writer view of the prefilled keys it owns (k mod writers == w)
-					if m[k] == nil && pre[k] != nil {
-						cp := *pre[k]
-						m[k] = &cp
-					}
+				if k < cc.Prefill && m[k] == nil && pre[k] != nil {
+					cp := *pre[k]
+					m[k] = &cp
 				}
-				phase := []string{"before-compact", "during-compact", "between-compact-and-commit", "during-commit", "after-commit"}[s0]
-				t.applyBoth(o, m, phase, nil)
+				t.applyBoth(o, m, phases[s0], hist)
 				s1 := atomic.LoadInt32(&state)
+				done[s0]++
+				atomic.AddInt64(&phaseDone[s0], 1)
 				atomic.AddInt64(&wl.total, 1)
 				switch {
 				case s0 == 1 && s1 == 1 && cpdThere:
 					atomic.AddInt64(&wl.inCopyWindow, 1)
 					atomic.AddInt64(&wl.duringCompact, 1)
-				case s0 <= 1 && s1 >= 1 && s0 != s1 || s0 == 1:
+				case s0 == 1 || (s0 == 0 && s1 >= 1):
 					atomic.AddInt64(&wl.duringCompact, 1)
 				case s0 == 2 && s1 == 2:
 					atomic.AddInt64(&wl.betweenPhases, 1)
@@ -479,16 +498,19 @@ func runConcurrent(c hcase) bool {
 				case s0 == 4:
 					atomic.AddInt64(&wl.afterCommit, 1)
 				}
-				if s0 == 4 && rng.Intn(3) == 0 {
-					return
+				if s0 == 1 && cc.PaceUs > 0 {
+					time.Sleep(time.Duration(cc.PaceUs) * time.Microsecond)
 				}
 			}
 		}(w)
 	}
-	// let the writers get going, then compact while they run
-	for atomic.LoadInt64(&wl.total) < int64(cc.Writers) {
-		time.Sleep(time.Millisecond)
+	waitFor := func(ph int) {
+		for i := 0; atomic.LoadInt64(&phaseDone[ph]) < int64(cc.Writers*budget[ph]) && i < 20000; i++ {
+			time.Sleep(500 * time.Microsecond)
+		}
 	}
+	// warm-up done, then compact while the writers run
+	waitFor(0)
 	atomic.StoreInt32(&state, 1)
 	err := compact(t.volA(), c.Algo, cc.BytesPerSec)
 	atomic.StoreInt32(&state, 2)
@@ -499,21 +521,14 @@ func runConcurrent(c hcase) bool {
 		r.Violation(lib.Sig{"op": "compact", "class": "compact-error"}, map[string]interface{}{"msg": err.Error(), "case": c})
 		return false
 	}
-	// a little traffic between the phases, then commit while the writers still run
-	n0 := atomic.LoadInt64(&wl.total)
-	for i := 0; atomic.LoadInt64(&wl.total) < n0+int64(cc.Writers) && i < 2000; i++ {
-		time.Sleep(time.Millisecond)
-	}
+	// traffic between the phases, then commit while the writers still run
+	waitFor(2)
 	atomic.StoreInt32(&state, 3)
 	idxAtCommit := t.volA().IndexFileSize()
 	err = t.volA().CommitCompact()
 	atomic.StoreInt32(&state, 4)
-	n1 := atomic.LoadInt64(&wl.total)
-	for i := 0; atomic.LoadInt64(&wl.total) < n1+int64(cc.Writers) && i < 2000; i++ {
-		time.Sleep(time.Millisecond)
-	}
-	close(stop)
 	wg.Wait()
+	close(stop)
 	if err != nil {
 		r.Violation(lib.Sig{"op": "commit", "class": "commit-error"}, map[string]interface{}{"msg": err.Error(), "case": c})
 		return false
@@ -616,7 +631,7 @@ func main() {
 					}
 				}
 				if nc == 1 && nm == 1 && posC < posM && wBefore {
-					c := hcase{Kind: "memory", Algo: algo, NKeys: 2}
+					c := hcase{Kind: "memory", Algo: algo, NKeys: 2, Reload: run%4 == 0} // every reopen costs 4 fsyncs
 					key := fmt.Sprintf("exh/%d", algo)
 					for i := 0; i < L; i++ {
 						l := letters[idx[i]]
@@ -669,7 +684,7 @@ func main() {
 	twins := map[string]*twin{}
 	for h := 0; h < nh && r.Violations() < 20; h++ {
 		rng := r.SubRng(fmt.Sprintf("c04-rand-%d", h))
-		c := hcase{Kind: "memory", VolTtl: volTtls[h%3], Algo: 1 + (h/3)%2, NKeys: r.Pick(4, 6)}
+		c := hcase{Kind: "memory", VolTtl: volTtls[h%3], Algo: 1 + (h/3)%2, NKeys: r.Pick(4, 6), Reload: h%2 == 0}
 		if h%10 == 9 {
 			c.Kind = "leveldb"
 		}
@@ -743,7 +758,7 @@ func main() {
 		if i%4 == 3 {
 			c.Kind = "leveldb"
 		}
-		c.Concurr = &ccase{Writers: 4, KeysPerW: 12, Prefill: r.Pick(1200, 2500), PrefillLen: 1500, BytesPerSec: 1200 * 1024, OpsPerW: 100000, Seed: r.Seed*1000 + int64(i)}
+		c.Concurr = &ccase{Writers: 4, KeysPerW: 12, Prefill: r.Pick(1200, 2500), PrefillLen: 1500, BytesPerSec: 1200 * 1024, OpsPerW: 150, OpsBetween: 10, OpsCommit: 3, OpsAfter: 10, PaceUs: 3000, Seed: r.Seed*1000 + int64(i)}
 		before := r.Counter("concurrent_ops_overlapping_compact_call")
 		runConcurrent(c)
 		if r.Counter("concurrent_ops_overlapping_compact_call") > before {
